@@ -110,6 +110,37 @@ def generate(rng, tier, seed):
     if tier == "thorough" and _mem_gb() >= 24:      # the case holds about 10 GiB at its peak; skipped on smaller machines
         yield gigabyte_case(rng, "aes", 16, rng.choice((16, 24, 32)), "aes", ("encrypt_cbc", "decrypt_cbc", "encrypt_ecb", "decrypt_ecb"))
         yield gigabyte_case(rng, "tdes", 8, 16, "des", ("decrypt_cbc",))
+    # fixed points of CBC: (key, IV, data) constructed so that CBC encryption maps the data onto itself (C(i-1) = D(C(i)) xor C(i), built
+    # backwards with the `cryptography` package) - and, read the other way, CBC decryption of it returns it too: valid inputs on which
+    # "the output differs from the input" does not hold; also an IV equal to the first data block, and data equal to the key
+    from cryptography.hazmat.primitives.ciphers import Cipher as _C, algorithms as _A, modes as _M
+    for alg, (bs, ksizes, mod) in ALGS.items():
+        for ks in ksizes:
+            for nblk in (1, 2, 3):
+                key = rb(rng, ks)
+                a_ = _A.AES(key) if alg == "aes" else _A.TripleDES(key if ks == 24 else (key + key[:8] if ks == 16 else key * 3))
+                dec = lambda b, a_=a_: (lambda d: d.update(b) + d.finalize())(_C(a_, _M.ECB()).decryptor())
+                blocks = [rb(rng, bs)]
+                for _ in range(nblk):
+                    blocks.insert(0, bytes(x ^ y for x, y in zip(dec(blocks[0]), blocks[0])))
+                iv, data = blocks[0], b"".join(blocks[1:])
+                c = Case(f"{alg}:cbc-fixed-point", {"key": ks, "blocks": nblk})
+                e = c.call(f"{mod}.encrypt_{alg}_cbc", key, iv, data)
+                d = c.call(f"{mod}.decrypt_{alg}_cbc", key, iv, data)
+                if not e.ok or e.value != data:
+                    c.fail(f"CBC encryption of a constructed fixed point: {'raised ' + e.err if not e.ok else 'result differs from the textbook value (the data itself)'}")
+                if not d.ok:
+                    c.fail(f"CBC decryption of valid data raised {d.err}")
+                yield c
+            key = rb(rng, ks)
+            data = rb(rng, 2 * bs)
+            c = Case(f"{alg}:iv-equals-first-block / data-equals-key", {"key": ks})
+            c.call(f"{mod}.encrypt_{alg}_cbc", key, data[:bs], data)
+            c.call(f"{mod}.decrypt_{alg}_cbc", key, data[:bs], data)
+            kd = (key * 2)[: 2 * bs] if len(key) % bs else key[: (len(key) // bs) * bs] or (key * 2)[:bs]
+            c.call(f"{mod}.encrypt_{alg}_ecb", key, kd)
+            c.call(f"{mod}.decrypt_{alg}_ecb", key, kd)
+            yield c
     yield volume_case(rng, "tdes", 8, rng.choice((8, 16, 24)), "des", (1 << 20) + (1 << 17))
     yield volume_case(rng, "aes", 16, rng.choice((16, 24, 32)), "aes", (1 << 20) + (1 << 17))
     reps = 6 if tier == "quick" else 40
